@@ -6,7 +6,7 @@ VERIF=$(pwd)
 export GOFLAGS=-mod=mod GOPROXY=off GOSUMDB=off GOTOOLCHAIN=local
 mkdir -p .bin evidence replay
 cd harness || exit 1
-cp /repo/go.sum go.sum.repo && cat go.sum.repo go.sum.extra | sort -u > go.sum; rm -f go.sum.repo
+cat /repo/go.sum go.sum.extra | sort -u > go.sum
 go build -tags verif -o "$VERIF/.bin/vcheck" ./cmd/vcheck || exit 1
 go build -tags verif -race -o "$VERIF/.bin/vcheck-race" ./cmd/vcheck || exit 1
 echo setup ok
